@@ -28,7 +28,7 @@ RULE = (
 ASSUMPTIONS = [
     "for BLOBs only 'bytes changed => Change' is asserted (BLOB values have identity equality)",
     "whether Change is raised before or after the publication is not asserted",
-    "switch vectors use AnyOfMany so that the requested value is the value taken (the rules are C09's business)",
+    "for switches the value taken is the requested one after the vector's rule (OneOfMany keeps its last On switch On); Change is judged on the value actually taken; events of sibling switches flipped by a rule are not asserted",
 ]
 
 DOMAIN = {
@@ -87,7 +87,7 @@ class Rig:
         vcls = getattr(properties, kind + "Vector")
         kwargs = {"enabled": case.get("enabled", True), "elements": {"e0": ecls("E0"), "e1": ecls("E1")}}
         if kind == "Switch":
-            kwargs["rule"] = "AnyOfMany"
+            kwargs["rule"] = case.get("rule", "AnyOfMany")
         self.group_def = properties.Group("G", vectors={"v": vcls("V", **kwargs)})
         el_defs = [self.group_def.vectors["v"].elements["e0"], self.group_def.vectors["v"].elements["e1"]]
         evcls = {"Write": Write, "Change": Change, "Read": Read}
@@ -174,6 +174,7 @@ def check_contract(case):
             if kind == "BLOB" and t == "client":
                 t = "set_value"  # uploads through the wire are C06/C08's business
             old = el._value
+            others_on = kind == "Switch" and rig.element(inst, 1 - e)._value == "On"
             rig.trace.clear()
             pub_before = len(rig.published)
             where = f"{kind} enabled={case.get('enabled', True)} instances={ninst} op={op} handlers={case['handlers']}"
@@ -227,7 +228,8 @@ def check_contract(case):
                 for h in plain_read:
                     if h not in got:
                         raise Failure("read-handler-not-run-before-return", f"{where}: sync trace {sync_trace}")
-                if refreshers:
+                if refreshers and not (kind == "Switch" and case.get("rule", "AnyOfMany") != "AnyOfMany"):
+                    # (under an exclusive switch rule the refreshed value itself is subject to the rule: not modelled)
                     want = py_value(kind, case["handlers"][refreshers[-1]]["refresh"] - 1)
                     if norm(kind, returned[0]) != norm(kind, want):
                         raise Failure("read-returns-stale-value", f"{where}: returned {returned[0]!r}, refreshed to {want!r}")
@@ -267,8 +269,11 @@ def check_contract(case):
                 continue
             if has_refresh:
                 continue  # a refreshing Read handler overrides the written value by design; not modelled further
+            requested = new
+            if kind == "Switch" and new == "Off" and case.get("rule", "AnyOfMany") == "OneOfMany" and not others_on:
+                new = "On"  # the switch rule keeps the last On switch On: this is the value actually taken
             if norm(kind, el._value) != norm(kind, new):
-                raise Failure(f"value-not-taken:{t}", f"{where}: element holds {el._value!r}, requested {new!r}")
+                raise Failure(f"value-not-taken:{t}", f"{where}: element holds {el._value!r}, requested {requested!r} (rule gives {new!r})")
             want_pubs = 1 if case.get("enabled", True) else 0
             if len(pubs) != want_pubs:
                 raise Failure(f"publication-count:{len(pubs)}-instead-of-{want_pubs}", f"{where}: {[p.__class__.tag_name() for p in pubs]}")
@@ -310,6 +315,8 @@ def check_contract(case):
             saw_change = saw_change or changed
             saw_same = saw_same or not changed
         labels = [kind, f"instances={ninst}", "enabled" if case.get("enabled", True) else "disabled"]
+        if kind == "Switch":
+            labels.append("rule-" + case.get("rule", "AnyOfMany"))
         if any(h.get("veto") and not h["coro"] for h in case["handlers"]):
             labels.append("veto")
         if any(h["coro"] for h in case["handlers"]):
@@ -339,7 +346,8 @@ op_st = st.fixed_dictionaries(
 def case_st(instances):
     return st.fixed_dictionaries(
         {
-            "kind": st.sampled_from(list(DOMAIN)),
+            "kind": st.sampled_from(list(DOMAIN) + ["Switch"]),
+            "rule": st.sampled_from(["AnyOfMany", "OneOfMany", "AtMostOne", "OneOfMany"]),
             "enabled": st.sampled_from([True, True, False]),
             "instances": instances,
             "handlers": st.lists(handler_st, min_size=0, max_size=4),
